@@ -141,8 +141,12 @@ def gen_project(rnd, idx, forced=None):
     used_names = set()
     nfiles = rnd.randint(1, 3)
     k = 0
+    family = rnd.choice([None, None, ["user-login", "user_login", "user-login2", "user:login", "userLogin"], ["a-b", "a_b", "a-b2", "a_b2", "a/b"]])
+    if family:
+        nev = max(nev, 3)
     for e in range(nev):
-        name = rand_event_name(rnd)
+        # event names whose derived identifiers collide — also with the numeric suffix a de-duplication scheme would append
+        name = family[e % len(family)] if family and e < len(family) else rand_event_name(rnd)
         while name in used_names:
             name = rand_event_name(rnd)
         used_names.add(name)
